@@ -230,7 +230,10 @@ type ReplayOut struct {
 	Same      bool       `json:"same"`
 	Known     string     `json:"known,omitempty"`
 	Ops       int        `json:"ops"`
+	Attempts  int        `json:"attempts,omitempty"`
 }
+
+const replayAttempts = 16
 
 func loadScenario[C any, O any](path string) *Scenario[C, O] {
 	b, err := os.ReadFile(path)
@@ -263,8 +266,23 @@ func driveReplay[C any, O any](t *testing.T, eng Engine[C, O], a *Args) {
 			fmt.Fprintf(os.Stderr, "REPEAT %d x %s\n", v, k)
 		}
 	}
+	// The scenario fixes every choice the simulator makes. What it cannot fix is the order in which the code under
+	// test iterates its own Go maps (randomised inside the runtime, no seam): on a tree where the property holds
+	// the outcome does not depend on it (determinism self-test), on a broken tree it may. A replay therefore
+	// re-executes the scenario until the recorded violation shows, at most replayAttempts times.
 	res := SafeRun(t, eng, nil, sc)
-	ro := &ReplayOut{Violation: res.Violation, Expected: exp, Ops: len(sc.Ops)}
+	attempts := 1
+	for exp != nil && (res.Violation == nil || !exp.Same(res.Violation)) && attempts < replayAttempts {
+		r2 := SafeRun(t, eng, nil, sc)
+		attempts++
+		if r2.Violation != nil && exp.Same(r2.Violation) {
+			res = r2
+		}
+	}
+	if attempts > 1 {
+		fmt.Fprintf(os.Stderr, "replay: %d execution(s) of the scenario\n", attempts)
+	}
+	ro := &ReplayOut{Violation: res.Violation, Expected: exp, Ops: len(sc.Ops), Attempts: attempts}
 	if res.Violation != nil {
 		ro.Same = exp == nil || exp.Same(res.Violation)
 		if k := findKnown(a.Known, sc.Property, res.Violation); k != nil {
@@ -317,7 +335,11 @@ func Shrink[C any, O any](t *testing.T, eng Engine[C, O], sc *Scenario[C, O], v 
 		evals++
 		res := SafeRun(t, eng, nil, c)
 		if res.Violation != nil && res.Violation.Same(v) {
-			return res.Violation
+			// accept a smaller scenario only if it fails twice in a row (keeps replays of map-order dependent
+			// failures likely to reproduce)
+			if r2 := SafeRun(t, eng, nil, c); r2.Violation != nil && r2.Violation.Same(v) {
+				return res.Violation
+			}
 		}
 		return nil
 	}
